@@ -38,6 +38,7 @@ type c14Case struct {
 	Placement string `json:"placement"` // comment | text | attr | after-root
 	Valid     bool   `json:"valid"`
 	Entry     string `json:"entry"` // sso-query | sso-form | logout-form | logout-query
+	Undeclared bool  `json:"undeclared,omitempty"` // the SAMLEncoding parameter is omitted (payload is DEFLATE all the same)
 }
 
 type c14Result struct {
@@ -118,10 +119,17 @@ func c14Worker(c c14Case) c14Result {
 	var mk func() *world.Reply
 	switch c.Entry {
 	case "sso-query", "logout-query":
-		raw := "SAMLRequest=" + msg.Pct(b64, msg.PctStyle{}) + "&RelayState=rs&SAMLEncoding=" + msg.Pct(msg.EncDeflate, msg.PctStyle{})
+		raw := "SAMLRequest=" + msg.Pct(b64, msg.PctStyle{}) + "&RelayState=rs"
+		if !c.Undeclared {
+			raw += "&SAMLEncoding=" + msg.Pct(msg.EncDeflate, msg.PctStyle{})
+		}
 		mk = func() *world.Reply { return w.Do(world.RawRequest("GET", "", path, raw, "", nil)) }
 	default:
-		body := []byte(url.Values{"SAMLRequest": {b64}, "RelayState": {"rs"}, "SAMLEncoding": {msg.EncDeflate}}.Encode())
+		form := url.Values{"SAMLRequest": {b64}, "RelayState": {"rs"}, "SAMLEncoding": {msg.EncDeflate}}
+		if c.Undeclared {
+			form.Del("SAMLEncoding")
+		}
+		body := []byte(form.Encode())
 		mk = func() *world.Reply {
 			return w.Do(world.NewRequest("POST", "", path, nil, "application/x-www-form-urlencoded", body))
 		}
@@ -160,7 +168,7 @@ func runC14(ctx Ctx) int {
 		}
 	}
 	run := ev.NewRun("C14")
-	run.Rule = "grid: inflated size {1,8,32,64 MiB quick; +256 MiB, 1 GiB thorough} x padding placement {comment, text, attribute value, after the root element} x surrounding request {valid, invalid} x entry {SSO query, SSO form, logout form, logout query}; each case = one real ServeHTTP in a fresh worker process; oracle: bytes delivered by the inflater (counted by the overlay's pass-through reader) <= 20 MiB, TotalAlloc delta <= 160 MiB, and any payload larger than the bound is not accepted"
+	run.Rule = "grid: inflated size {1,8,32,64 MiB quick; +256 MiB, 1 GiB thorough} x padding placement {comment, text, attribute value, after the root element} x surrounding request {valid, invalid} x entry {SSO query, SSO form, logout form, logout query} x SAMLEncoding parameter {declared, omitted}; each case = one real ServeHTTP in a fresh worker process; oracle: bytes delivered by the inflater (counted by the overlay's pass-through reader) <= 20 MiB, TotalAlloc delta <= 160 MiB, and any payload larger than the bound is not accepted"
 	run.Assume = []string{"the inflater is compress/flate (the byte counter sits on flate.NewReader); if a change replaces it the allocation clause still decides", "the counting reader aborts an execution at 128 MiB so a violating tree is reported instead of exhausting memory"}
 	judge := func(c c14Case, r c14Result) []string {
 		var bad []string
@@ -220,7 +228,8 @@ func runC14(ctx Ctx) int {
 		for _, pl := range []string{"comment", "text", "attr", "after-root"} {
 			for _, v := range []bool{true, false} {
 				for _, e := range []string{"sso-query", "sso-form", "logout-form", "logout-query"} {
-					cases = append(cases, c14Case{s, pl, v, e})
+					cases = append(cases, c14Case{SizeMiB: s, Placement: pl, Valid: v, Entry: e})
+					cases = append(cases, c14Case{SizeMiB: s, Placement: pl, Valid: v, Entry: e, Undeclared: true})
 				}
 			}
 		}
@@ -253,6 +262,9 @@ func runC14(ctx Ctx) int {
 		}
 		for _, cl := range judge(c, r) {
 			labels := []string{"entry=" + c.Entry, "placement=" + c.Placement}
+			if c.Undeclared {
+				labels = append(labels, "SAMLEncoding-omitted")
+			}
 			if int64(c.SizeMiB)<<20 > c14DeliveredBound {
 				labels = append(labels, "inflated>bound")
 			}
@@ -260,6 +272,6 @@ func runC14(ctx Ctx) int {
 		}
 	})
 	os.Unsetenv("VERIF_WORKERS")
-	finishCapped(run, complete, fmt.Sprintf("%d cases: sizes %v MiB x 4 placements x 2 validity x 4 entries", len(cases), sizes))
+	finishCapped(run, complete, fmt.Sprintf("%d cases: sizes %v MiB x 4 placements x 2 validity x 4 entries x SAMLEncoding declared/omitted", len(cases), sizes))
 	return run.Finish()
 }
